@@ -505,6 +505,7 @@ pub fn run(args: &Args) -> i32 {
     let permille = args.u64("sample-permille", 1000);
     let long_permille = args.u64("long-permille", 1000);
     let silent_permille = args.u64("silent-permille", 1000);
+    let class_only = args.str("class", "");
     let only = args.get("only").and_then(|x| x.parse::<u64>().ok());
     let mut rng = crate::rng::Rng::new(seed ^ 0xAC7);
     let mut plans: Vec<Value> = vec![];
@@ -535,7 +536,12 @@ pub fn run(args: &Args) -> i32 {
         let inflight = plan["store"] == "drop_p1" && plan["long"].as_u64().unwrap_or(0) == 0 && plan["calls"].as_array().map(|c| c.len() >= 2).unwrap_or(false)
             && plan["gaps"].as_array().map(|g| g.iter().any(|x| x.as_u64() == Some(400))).unwrap_or(false)
             && plan["hold"]["a"] == 0 && plan["hold"]["b"] == false && !has_silent;
-        let pm = if repub || inflight { 1000 } else if plan["long"].as_u64().unwrap_or(0) > 0 { long_permille } else if has_silent || cross { silent_permille } else { permille };
+        let join = plan["join"].as_bool().unwrap_or(false);
+        if class_only == "join" && !join {
+            b += 1;
+            continue;
+        }
+        let pm = if repub || inflight || join { 1000 } else if plan["long"].as_u64().unwrap_or(0) > 0 { long_permille } else if has_silent || cross { silent_permille } else { permille };
         let take = only.map(|o| o == b).unwrap_or_else(|| pm >= 1000 || rng.below(1000) < pm);
         if take {
             let (n, _) = run_plan(b, plan, seed, &mut out);
